@@ -13,10 +13,10 @@ pub fn def() -> CheckDef {
         id: "C06",
         title: "Errors propagate upward unless a matching catch takes them, exactly once",
         case,
-        rule: "case = generated model with catches on acts and steps (nested, several codes, catch-all, empty catch, non-matching) x one error source (client `error` action with a seeded code at a seeded open interrupt, a throwing script, or an unknown package) while other acts may be open x seeded schedule; the oracle derives from the model which task must take the error (first matching catch walking up from the failing act) and checks the propagation chain (states, original code and message), that exactly the first matching catch's steps run exactly once, that the catching task completes and its successor runs, and the error/complete events. non-trivial = the error was actually raised and at least one enclosing node declares a catch; distinct = distinct (scenario hash, schedule hash)",
+        rule: "case = generated model with catches on acts and steps (nested, several codes, catch-all, empty catch, non-matching) x one error source (client `error` action with a seeded code at a seeded open interrupt, a throwing script, or an unknown package) while other acts may be open, in 45% of the client cases followed by a second client error at an interrupt inside the steps of the catch that took the first (a task catches only once; the inner steps' own catches still do) x seeded schedule; the oracle derives from the model which task must take the error (first matching catch walking up from the failing act) and checks the propagation chain (states, original code and message), that exactly the first matching catch's steps run exactly once, that the catching task completes and its successor runs, and the error/complete events. non-trivial = the error was actually raised and at least one enclosing node declares a catch; distinct = distinct (scenario hash, schedule hash)",
         level: "exploration",
-        assumptions: &["monotone simulated clock", "one error source per run (several simultaneous errors are covered by the lifecycle checks C02/C03)", "no storage errors are injected"],
-        probes: &["probe.caught_at_act", "probe.caught_at_step", "probe.caught_at_outer_step", "probe.uncaught", "probe.non_matching_catch", "probe.catch_all", "probe.empty_catch", "probe.second_catch_matches", "probe.script_error", "probe.unknown_package"],
+        assumptions: &["monotone simulated clock", "one error source per run, or two in sequence where the second is raised inside the steps of the catch that took the first (several simultaneous errors in sibling branches are covered by the lifecycle checks C02/C03)", "no storage errors are injected"],
+        probes: &["probe.caught_at_act", "probe.caught_at_step", "probe.caught_at_outer_step", "probe.uncaught", "probe.non_matching_catch", "probe.catch_all", "probe.empty_catch", "probe.second_catch_matches", "probe.script_error", "probe.unknown_package", "probe.second_error_in_catch_steps", "probe.second_error_caught_inside", "probe.second_error_caught_above", "probe.second_error_uncaught"],
         quick_cases: 6000,
         no_shrink: &[],
     }
@@ -70,6 +70,29 @@ fn catches_of(m: &MWorkflow, kind: &str, id: &str) -> Vec<MCatch> {
         "step" => find_step(std::slice::from_ref(m), id).map(|s| s.catches).unwrap_or_default(),
         _ => vec![],
     }
+}
+
+/// first node walking up `path` (from the failing act) that declares a catch matching `code`; `used` = index of a
+/// node that has already taken an error (a task is revived by its catch only once)
+fn find_catcher(m: &MWorkflow, path: &[(String, String)], code: &str, used: Option<usize>) -> (Option<(usize, MCatch, usize)>, bool, bool) {
+    let matches = |c: &MCatch| c.on.is_none() || c.on.as_deref() == Some(code);
+    let mut any_catch = false;
+    let mut non_matching = false;
+    for i in (0..path.len()).rev() {
+        if used == Some(i) {
+            continue;
+        }
+        let cs = catches_of(m, &path[i].0, &path[i].1);
+        if !cs.is_empty() {
+            any_catch = true;
+        }
+        if let Some((ci, c)) = cs.iter().enumerate().find(|(_, c)| matches(c)) {
+            return (Some((i, c.clone(), ci)), any_catch, non_matching);
+        } else if !cs.is_empty() {
+            non_matching = true;
+        }
+    }
+    (None, any_catch, non_matching)
 }
 
 fn gen_scenario(rng: &mut vsim::rng::Rng) -> Scenario {
@@ -131,6 +154,63 @@ fn gen_scenario(rng: &mut vsim::rng::Rng) -> Scenario {
             o.insert("ecode".into(), json!(code));
             o.insert("message".into(), json!("boom"));
             sc.client.reactions.insert(a.key.clone(), vec![Reaction { action: "error".into(), options: o, repeat: 0 }, Reaction::complete()]);
+            // sometimes a second error, raised inside the steps of the catch that takes the first one (its own
+            // catches may take it; the task that has already caught must not catch again)
+            if rng.below(100) < 45 {
+                if let Some(path) = path_to(&m, &a.id) {
+                    if let (Some((_, c, _)), _, _) = find_catcher(&m, &path, &code, None) {
+                        let mut inner: Vec<MAct> = vec![];
+                        collect(&c.steps, &mut inner);
+                        inner.retain(|x| !x.key.is_empty() && x.key != a.key);
+                        if !inner.is_empty() {
+                            let a2 = rng.pick(&inner).clone();
+                            let code2 = rng.pick(&["e1", "e2", "e3", "e9"]).to_string();
+                            let mut o2 = serde_json::Map::new();
+                            o2.insert("ecode".into(), json!(code2));
+                            o2.insert("message".into(), json!("boom2"));
+                            sc.client.reactions.insert(a2.key.clone(), vec![Reaction { action: "error".into(), options: o2, repeat: 0 }, Reaction::complete()]);
+                            // often the step that holds the second failing act (a step of the first catch) gets a catch
+                            // of its own: matching (it must take the second error although an enclosing task has
+                            // already caught once), catch-all, or for another code
+                            if rng.below(100) < 60 {
+                                let on = match rng.below(4) {
+                                    0 => None,
+                                    1 => Some(rng.pick(&["e1", "e2", "e3", "e9"]).to_string()),
+                                    _ => Some(code2.clone()),
+                                };
+                                let inner_step = MStep { id: format!("nc_{}", a2.id), acts: vec![MAct { id: format!("ncm_{}", a2.id), key: format!("ncm_{}", a2.id), kind: ActKind::Msg, ..Default::default() }], ..Default::default() };
+                                fn add_catch(steps: &mut [MStep], aid: &str, c: &MCatch) -> bool {
+                                    for s in steps.iter_mut() {
+                                        if s.acts.iter().any(|a| a.id == aid) {
+                                            s.catches.push(c.clone());
+                                            return true;
+                                        }
+                                        for a in s.acts.iter_mut() {
+                                            for k in a.catches.iter_mut() {
+                                                if add_catch(&mut k.steps, aid, c) {
+                                                    return true;
+                                                }
+                                            }
+                                        }
+                                        for b in s.branches.iter_mut() {
+                                            if add_catch(&mut b.steps, aid, c) {
+                                                return true;
+                                            }
+                                        }
+                                        for k in s.catches.iter_mut() {
+                                            if add_catch(&mut k.steps, aid, c) {
+                                                return true;
+                                            }
+                                        }
+                                    }
+                                    false
+                                }
+                                add_catch(&mut m.steps, &a2.id, &MCatch { on, steps: vec![inner_step] });
+                            }
+                        }
+                    }
+                }
+            }
         } else {
             // replace the act by one that fails by itself (ecode ""): a throwing script or an unknown package
             fn replace(steps: &mut [MStep], id: &str, kind: &ActKind) {
@@ -207,22 +287,7 @@ pub fn case(ctx: &mut CaseCtx) -> CaseOut {
         return out;
     };
     // the catcher: walking up from the failing act
-    let matches = |c: &MCatch| c.on.is_none() || c.on.as_deref() == Some(code.as_str());
-    let mut catcher: Option<(usize, MCatch, usize)> = None; // (index in path, catch, index of catch)
-    let mut any_catch = false;
-    let mut non_matching = false;
-    for i in (0..path.len()).rev() {
-        let cs = catches_of(m, &path[i].0, &path[i].1);
-        if !cs.is_empty() {
-            any_catch = true;
-        }
-        if let Some((ci, c)) = cs.iter().enumerate().find(|(_, c)| matches(c)) {
-            catcher = Some((i, c.clone(), ci));
-            break;
-        } else if !cs.is_empty() {
-            non_matching = true;
-        }
-    }
+    let (catcher, any_catch, non_matching) = find_catcher(m, &path, &code, None);
     if non_matching {
         ctx.count("probe.non_matching_catch", 1);
     }
@@ -239,6 +304,75 @@ pub fn case(ctx: &mut CaseCtx) -> CaseOut {
     let ev_done = rec.msgs.iter().filter(|m| m.via == "complete" && m.pid == "p1").count();
     let live = rec.qpoints.last().and_then(|q| q.live.iter().find(|p| p.pid == "p1"));
     let mut v = vec![];
+    // a second error that was accepted (inside the steps of the catch that took the first one)?
+    let errors: Vec<&ActionRec> = rec.actions.iter().filter(|a| a.action == "error" && a.ok).collect();
+    if errors.len() >= 2 {
+        ctx.count("probe.second_error_in_catch_steps", 1);
+        let e2 = errors[1];
+        let aid2 = rec.trans.iter().find(|t| t.tid == e2.tid).map(|t| t.nid.clone()).unwrap_or_default();
+        let code2 = e2.options.get("ecode").and_then(|x| x.as_str()).unwrap_or("").to_string();
+        let (Some(path2), Some((i1, _, _))) = (path_to(m, &aid2), catcher.as_ref()) else {
+            out.discarded = Some("second error outside of the first catch's steps".into());
+            return out;
+        };
+        // the node that took the first error lies on the path of the second one and is used up
+        let used = path2.iter().position(|n| n == &path[*i1]);
+        if used.is_none() {
+            out.discarded = Some("second error outside of the first catch's steps".into());
+            return out;
+        }
+        let (catcher2, _, _) = find_catcher(m, &path2, &code2, used);
+        let sig2 = |what: &str| json!({"second_error": true, "what": what, "catcher2": catcher2.as_ref().map(|(i, _, _)| if Some(*i) > used { "inside_first_catch_steps" } else { "above_first_catcher" }).unwrap_or("none")});
+        match &catcher2 {
+            Some((i2, c2, ci2)) => {
+                ctx.count(if Some(*i2) > used { "probe.second_error_caught_inside" } else { "probe.second_error_caught_above" }, 1);
+                let (ck, cid) = path2[*i2].clone();
+                for s in &c2.steps {
+                    let got = fin.get(&s.id).cloned().unwrap_or_default();
+                    if got != vec!["completed".to_string()] {
+                        v.push(Violation::new("C06", "catch_steps_not_run_once", sig2("matching_catch_steps"), format!("second error `{}` at act {} (inside the steps of the catch that took `{}` from act {}) matches catch #{} ({:?}) of {} {}: its step {} has instances {:?} instead of exactly one completed", code2, aid2, code, aid, ci2, c2.on, ck, cid, s.id, got)));
+                        break;
+                    }
+                }
+                if v.is_empty() {
+                    let got = fin.get(&cid).cloned().unwrap_or_default();
+                    if got != vec!["completed".to_string()] {
+                        v.push(Violation::new("C06", "catcher_did_not_complete", sig2("catcher"), format!("second error `{}` at act {} is taken by {} {} (the first matching catch walking up; {} {} has already caught once) but that task ended {:?}", code2, aid2, ck, cid, path[*i1].0, path[*i1].1, got)));
+                    }
+                }
+                if v.is_empty() {
+                    for (k, id) in path2.iter().skip(i2 + 1) {
+                        let got = fin.get(id).cloned().unwrap_or_default();
+                        if got != vec!["error".to_string()] {
+                            v.push(Violation::new("C06", "propagation_chain_broken", sig2("below_catcher"), format!("second error `{}` at act {}: {} {} below the catching {} {} ended {:?} instead of [error]", code2, aid2, k, id, ck, cid, got)));
+                            break;
+                        }
+                    }
+                }
+                if v.is_empty() && (ev_err != 0 || ev_done != 1) {
+                    v.push(Violation::new("C06", "error_event_count", json!({"error_events": ev_err, "complete_events": ev_done, "caught": true, "second_error": true}), format!("both errors are caught (`{}` at {} and `{}` at {}): {} error events and {} complete events were delivered (must be 0 and 1)", code, aid, code2, aid2, ev_err, ev_done)));
+                }
+            }
+            None => {
+                ctx.count("probe.second_error_uncaught", 1);
+                for (k, id) in &path2 {
+                    let got = fin.get(id).cloned().unwrap_or_default();
+                    if got != vec!["error".to_string()] {
+                        v.push(Violation::new("C06", "propagation_chain_broken", sig2("uncaught"), format!("second error `{}` at act {} has no catch left to take it ({} {} has already caught once): enclosing {} {} ended {:?} instead of [error]", code2, aid2, path[*i1].0, path[*i1].1, k, id, got)));
+                        break;
+                    }
+                }
+                if v.is_empty() && (ev_err != 1 || ev_done != 0) {
+                    v.push(Violation::new("C06", "error_event_count", json!({"error_events": ev_err, "complete_events": ev_done, "caught": false, "second_error": true}), format!("second error `{}` at act {} is not caught: {} error events and {} complete events were delivered (must be 1 and 0)", code2, aid2, ev_err, ev_done)));
+                }
+            }
+        }
+        out.violations = v;
+        out.nontrivial = true;
+        out.outcome_hash = outcome_hash(&rec);
+        out.sample = basic_sample(&sc, &rec, json!({"failing_act": aid, "code": code, "second_failing_act": aid2, "second_code": code2}));
+        return out;
+    }
     match &catcher {
         None => {
             ctx.count("probe.uncaught", 1);
@@ -315,6 +449,18 @@ pub fn case(ctx: &mut CaseCtx) -> CaseOut {
                     }
                     if !v.is_empty() {
                         break;
+                    }
+                }
+            }
+            // "... the catching task THEN completes": not before the last step of the catch has closed
+            if v.is_empty() {
+                let done_at = rec.trans.iter().filter(|t| t.nid == cid && t.new == "completed").map(|t| t.seq).max();
+                let steps_closed_at = rec.trans.iter().filter(|t| c.steps.iter().any(|s| s.id == t.nid) && is_terminal_state(&t.new)).map(|t| t.seq).max();
+                if let (Some(d), Some(sc_)) = (done_at, steps_closed_at) {
+                    if d < sc_ {
+                        ctx.count("probe.catcher_completed_early", 1);
+                        let open_sibling = !find_step(std::slice::from_ref(m), &cid).map(|s| s.branches.is_empty()).unwrap_or(true);
+                        v.push(Violation::new("C06", "catcher_completed_before_catch_steps", json!({"catcher": ck, "catcher_has_branches": open_sibling}), format!("error `{}` at act {} was taken by {} {}: the task completed (seq {}) before the steps of its catch had closed (seq {})", code, aid, ck, cid, d, sc_)));
                     }
                 }
             }
